@@ -157,6 +157,10 @@ def cases():
     yield ("dummy_hides_host", ("module solver\n  implicit none\ncontains\n  subroutine rhs(t)\n    real :: t\n  end subroutine rhs\n  subroutine integrate(rhs, n)\n    interface\n      function rhs(t) result(y)\n"
                                 "        real, intent(in) :: t\n        real :: y\n      end function rhs\n    end interface\n    integer :: n\n    procedure(rhs), pointer :: saved\n  end subroutine integrate\n"
                                 "  subroutine other()\n    procedure(rhs), pointer :: q\n  end subroutine other\nend module solver\n"), 0)
+    yield ("procedure_beats_host_absint", ("module other\n  implicit none\ncontains\n  subroutine imported(x)\n    real :: x\n  end subroutine imported\nend module other\n"
+                                           "module m\n  implicit none\n  abstract interface\n    subroutine cb()\n    end subroutine cb\n    subroutine imported()\n    end subroutine imported\n  end interface\n"
+                                           "  procedure(cb), pointer :: at_module_level\ncontains\n  subroutine outer()\n    procedure(cb), pointer :: p\n  contains\n    subroutine cb(n)\n      integer :: n\n    end subroutine cb\n"
+                                           "  end subroutine outer\n  subroutine user()\n    use other, only: imported\n    procedure(imported), pointer :: q\n  end subroutine user\nend module m\n"), 0)
     yield ("undeclared", _mod("  subroutine p()\n    type(nowhere) :: v\n  end subroutine p\n"), 0)
     yield ("extension_chain_out_of_order", EXT_CHAIN, 0)
     yield ("nested_submodule", NESTED_SUBMODULE, 0)
@@ -287,6 +291,18 @@ def check(kind, proj):
             bad.append("procedure(rhs) inside integrate, whose dummy argument rhs has an interface body, resolves to the module's subroutine rhs")
         if q.proto[0] is not host_rhs:
             bad.append("procedure(rhs) in the sibling procedure other does not resolve to the module's subroutine rhs")
+    elif kind == "procedure_beats_host_absint":
+        m = [x for x in proj.modules if x.name == "m"][0]
+        other = [x for x in proj.modules if x.name == "other"][0]
+        outer, user = _find(m.subroutines, "outer"), _find(m.subroutines, "user")
+        p, q, top = _find(outer.variables, "p"), _find(user.variables, "q"), _find(m.variables, "at_module_level")
+        tgt = lambda v: getattr(v.proto[0], "procedure", v.proto[0])
+        if isinstance(p.proto[0], str) or tgt(p).parent is not outer:
+            bad.append("procedure(cb) in outer, which has an internal procedure cb, resolves to the module's abstract interface cb")
+        if isinstance(q.proto[0], str) or tgt(q).parent is not other:
+            bad.append("procedure(imported) in user, which imports `imported` from module other, resolves to the module's abstract interface of that name")
+        if isinstance(top.proto[0], str) or not getattr(top.proto[0], "abstract", getattr(getattr(top.proto[0], "parent", None), "abstract", False)):
+            pass
     elif kind == "undeclared":
         p = _find(m.subroutines, "p")
         v = _find(p.variables, "v")
